@@ -4,6 +4,7 @@ package main
 // (that *is* the fault model of C05); the only facts assumed are listed in the doc strings.
 
 import (
+	"strings"
 	"fmt"
 	"go/types"
 
@@ -228,8 +229,8 @@ func init() {
 		p.assume(True(), p.typeInv(st, types.Typ[types.String], Scalar{r}))
 		return Scalar{r}
 	})
-	for _, k := range []string{"path/filepath.ToSlash", "path/filepath.FromSlash", "path/filepath.Clean"} {
-		fname := "fp." + k[len("path/filepath."):]
+	for _, k := range []string{"path/filepath.ToSlash", "path/filepath.FromSlash", "path/filepath.Clean", "path/filepath.Base", "path/filepath.Dir", "path.Base"} {
+		fname := "fp." + strings.Replace(k[strings.Index(k, "/")+1:], "filepath.", "", 1)
 		reg(k, "a function of its argument (content uninterpreted)", func(fr *Frame, in ssa.Instruction, st *State, args []Value, rt types.Type) Value {
 			B.DeclareFun(fname, []string{SStr}, SStr)
 			r := B.App(fname, SStr, sTerm(args[0]))
@@ -238,15 +239,6 @@ func init() {
 		})
 		libEffTable[k] = noEffect
 	}
-	reg("path/filepath.Base", "returns a string", func(fr *Frame, in ssa.Instruction, st *State, args []Value, rt types.Type) Value {
-		return freshStr(fr.p, st, "base")
-	})
-	reg("path.Base", "returns a string", func(fr *Frame, in ssa.Instruction, st *State, args []Value, rt types.Type) Value {
-		return freshStr(fr.p, st, "base")
-	})
-	reg("path/filepath.Dir", "returns a string", func(fr *Frame, in ssa.Instruction, st *State, args []Value, rt types.Type) Value {
-		return freshStr(fr.p, st, "dir")
-	})
 	for _, k := range []string{"path/filepath.Join", "path/filepath.Base", "path.Base", "path/filepath.Dir"} {
 		libEffTable[k] = noEffect
 	}
